@@ -76,6 +76,7 @@ var _ = vl.Less
 func vJSON(c *Queue[int]) containers.VJSON {
 	return containers.VJSON{C: c, ToJSON: c.ToJSON, FromJSON: c.FromJSON,
 		Marshal: func() ([]byte, error) { return json.Marshal(c) },
+		Unmarshal: func(data []byte) error { return json.Unmarshal(data, c) },
 		Inv:     func() { VInv(c) },
 		Step:    func() { x := v.Int("sx"); c.Enqueue(x); v.Assert(c.Size() >= 1, "C12:enqueue-after-load") },
 		Fresh:   func() containers.VJSON { return vJSON(New[int](c.maxSize)) },
